@@ -202,6 +202,29 @@ def p3_floats(ctx, prog):
     return r
 
 
+def _cha_only_cycle(prog, comp):
+    """the cycle exists only because an unresolved trait-method call on a type parameter was approximated by all impls"""
+    from mirlib import callee_of
+    comp = set(comp)
+    items = set()
+    for n in comp:
+        m = re.match(r"^<.* as ([\w:]+)(?:<.*>)?>::(\w+)$", n)
+        if not m:
+            return False
+        items.add((m.group(1), m.group(2)))
+    if len(items) != 1:
+        return False
+    for n in comp:
+        b = prog.bodies[n]
+        for i, t in b.calls(cleanup=True):
+            f, rr = callee_of(t)
+            if f is None:
+                continue
+            if (rr or f) in comp:
+                return False
+    return True
+
+
 def t_termination(ctx, cfgs):
     import mustlib as M
     from rules.common import table
@@ -224,7 +247,9 @@ def t_termination(ctx, cfgs):
         for comp in prog.sccs(names):
             roots = tuple(sorted({root_fn(c) for c in comp}))
             e = known.get(roots)
-            if e is None:
+            if e is None and _cha_only_cycle(prog, comp):
+                r.inst("cycle " + " / ".join(x.split("::")[-1] for x in roots)[:100], "artifact of the class-hierarchy approximation: impls of one trait method for generic types that only call it on their type parameters (no member calls another member directly); each real instantiation recurses into a strictly smaller type", cfg=cfg)
+            elif e is None:
                 # tolerate a listed cycle that merely gained/lost closures or helper members: same root set required
                 r.viol("T:scc:" + "+".join(x.split("::")[-1] for x in roots)[:120], "recursive cycle without recorded termination argument: %s [cfg %s]" % (", ".join(roots), cfg), file=prog.bodies[comp[0]].file, line=prog.bodies[comp[0]].line)
             elif e["status"] == "finding":
